@@ -1,7 +1,7 @@
 """Per-property metadata used by the driver and the evidence writer."""
 
-CLAIMED = ['C01', 'C02', 'C03', 'C04', 'C05', 'C06', 'C07', 'C08', 'C09', 'C11', 'C12', 'C13']
-PENDING = ['C10', 'C14']
+CLAIMED = ['C01', 'C02', 'C03', 'C04', 'C05', 'C06', 'C07', 'C08', 'C09', 'C10', 'C11', 'C12', 'C13']
+PENDING = ['C14']
 
 NOT_APPLICABLE = {
     'C15': 'quantifies over thread schedules: Verus verifies sequential code (its concurrency support needs different code), Kani has no thread support; Send/Sync is decided by rustc, not by a contract',
